@@ -14,6 +14,10 @@ package main
 //	                                   (sum,min,max,avg,count,range of x), GetGroupByBuckets
 //	stats rbmerge <rpn> <p0>|<p1>…     one BlockResults per part, BlockResults.MergeBuckets in <rpn> order
 //
+// The checks and the Lean model follow the code WITH the repairs build/patches/c04-1..4 (IsNumeric merged, FastParseFloat wants a
+// digit, Reduce lets a number beat a running string, AddSegStatsStr uses FastParseFloat); the detectors of the repaired classes stay
+// and now report a VIOLATION when one of them reproduces.
+//
 // <vals> = "-" (empty) or comma separated: i<int64> | d<decimal> (float64) | s<hex> (string) | z (field absent)
 // Answers are exact: ints as ints, floats as exact rationals (big.Rat.SetFloat64).
 
@@ -454,7 +458,7 @@ func st4Abs(x int) int {
 //	dec      strict decimal numeral: a number for both parsers and for the specification
 //	fastonly only decimal-alphabet characters, accepted by FastParseFloat but not a numeral: "-", "+", ".", "e5", "-.e1" …
 //	special  optional sign + inf|infinity|nan (case-insensitive), or contains '_' / 'x' / 'X' (hex floats, digit separators):
-//	         strconv.ParseFloat may accept them; outside the model ("unmodelled")
+//	         strconv.ParseFloat may accept them (the query path used it before patch c04-4); text for the fixed code
 //	text     everything else: both parsers reject
 func st4StrClass(s []byte) string {
 	str := string(s)
@@ -488,13 +492,13 @@ type st4Ref struct {
 	bigMixed bool       // ints beyond 2^53 together with floats: the int→float conversion rounds
 	classes  map[string]bool
 	// input classes of the recorded defects
-	hasAbsent          bool
-	hasNoDigit         bool // "-", ".", "e5": FastParseFloat says number (ingest), strconv.ParseFloat says text (query)
-	hasNanInf          bool // strconv.ParseFloat gives NaN / ±Inf (query), FastParseFloat says text (ingest)
-	hasHexUnd          bool // strconv.ParseFloat gives a finite number for a non-decimal numeral ("0x10", "1_000")
-	textBeforeNumber   bool // some string precedes some int/float value (a group-by min/max cell holding a string rejects numbers)
-	nStr, nIntFloat    int  // strings of any kind / int and float values
-	repr               bool // every numeric value is exactly a float64 (min/max can be exact)
+	hasAbsent        bool
+	hasNoDigit       bool // "-", ".", "e5": FastParseFloat says number (ingest), strconv.ParseFloat says text (query)
+	hasNanInf        bool // strconv.ParseFloat gives NaN / ±Inf (query), FastParseFloat says text (ingest)
+	hasHexUnd        bool // strconv.ParseFloat gives a finite number for a non-decimal numeral ("0x10", "1_000")
+	textBeforeNumber bool // some string precedes some int/float value (a group-by min/max cell holding a string rejects numbers)
+	nStr, nIntFloat  int  // strings of any kind / int and float values
+	repr             bool // every numeric value is exactly a float64 (min/max can be exact)
 }
 
 var st4Two63 = new(big.Int).Lsh(big.NewInt(1), 63)
@@ -704,9 +708,10 @@ func st4CandsSeg(site string, ref *st4Ref, mergeIsNumLost bool) []st4Cand {
 	}
 	ingest := site == "foldi" || site == "mergei"
 	return []st4Cand{
-		{st4SigMergeIsNum, mergeIsNumLost, "sum avg split"},
+		// classes still recorded as known findings first, the repaired classes (regression detectors) after them
 		{st4SigSumOvf, ref.absInts.Cmp(st4Two63) >= 0, "sum avg"},
 		{st4SigRangeOvf, rangeOvf, "range"},
+		{st4SigMergeIsNum, mergeIsNumLost, "sum avg split"},
 		{st4SigNoDigit, ingest && ref.hasNoDigit, "sum avg min max range"},
 		{st4SigNanInf, !ingest && ref.hasNanInf, "sum avg min max range"},
 	}
@@ -722,9 +727,6 @@ func st4CheckSeg(site string, ref *st4Ref, der map[string]sutils.CValueEnclosure
 	// count(x) = number of events that have the field
 	if c, ok := der["count"]; ref.present > 0 && (!ok || st4CVRat(c) == nil || st4CVRat(c).Cmp(new(big.Rat).SetInt64(int64(ref.present))) != 0) {
 		fail("count", fmt.Sprintf("count=%s, %d values present", st4CVOr(der, "count"), ref.present))
-	}
-	if (site == "foldq" || site == "mergeq") && ref.hasHexUnd {
-		return fails // "0x10" / "1_000": whether such a string is a number is left to the engine; only the ingest/query agreement is demanded
 	}
 	if len(ref.nums) > 0 {
 		want := ref.sum()
@@ -856,15 +858,6 @@ func st4CandsRB(ref *st4Ref) []st4Cand {
 
 // ---------------------------------------------------------------- Exec
 
-func st4HasSpecial(vals []st4Val) bool {
-	for _, v := range vals {
-		if v.kind == 's' && st4StrClass(v.s) == "special" {
-			return true
-		}
-	}
-	return false
-}
-
 func st4ParseParts(tok string) ([][]st4Val, bool) {
 	var parts [][]st4Val
 	for _, p := range strings.Split(tok, "|") {
@@ -898,26 +891,15 @@ func st4Nontrivial(ref *st4Ref, parts int) bool {
 	return parts > 1 || (len(ref.nums) > 0 && (len(ref.strs) > 0 || ref.hasAbsent))
 }
 
-// which values the path under test takes for numbers (for the class "the first merged part holds text only")
+// which values the statistics take for numbers (both paths, fixed code: decimal numerals only)
 func st4PathNumeric(v st4Val, ingest bool) bool {
 	switch v.kind {
 	case 'i', 'd':
 		return true
 	case 's':
-		if ingest {
-			_, err := st4FastParse(v.s)
-			return err
-		}
-		_, err := strconv.ParseFloat(string(v.s), 64)
-		return err == nil
+		return st4StrClass(v.s) == "dec"
 	}
 	return false
-}
-
-// acceptance of utils.FastParseFloat, syntactically (dec or fastonly class)
-func st4FastParse(s []byte) (struct{}, bool) {
-	c := st4StrClass(s)
-	return struct{}{}, c == "fastonly" || (c == "dec")
 }
 
 // ingest-time statistics must equal query-time statistics on the same values (the .sst fast path and the raw
@@ -964,9 +946,6 @@ func st4Exec(line string) Result {
 			if mi, e := st4SstRT(st4FoldI(vals)); e == "" {
 				di, _ := st4Derive(mi)
 				res.Fails = append(res.Fails, st4IngestVsQuery(ref, d, di)...)
-			}
-			if st4HasSpecial(vals) {
-				res.Out = "unmodelled"
 			}
 		case "foldi":
 			m := st4FoldI(vals)
@@ -1049,9 +1028,6 @@ func st4Exec(line string) Result {
 		if dw != d && ref.exactArith() && ref.absInts.Cmp(st4Two63) < 0 {
 			res.Fails = append(res.Fails, PropFail{Sig: st4Sig(site, "split", cands),
 				Msg: fmt.Sprintf("%s: split %s merged in order %s gives {%s}, the unsplit list gives {%s}", site, f[4], f[3], d, dw)})
-		}
-		if !ingest && st4HasSpecial(all) {
-			res.Out = "unmodelled"
 		}
 		return res
 	case "rbmerge":
